@@ -47,8 +47,13 @@ pub fn fill_byte(addr: u32, k: u32) -> u8 {
     if k == 0 {
         return 0;
     }
-    let x = (addr as u64).wrapping_mul(2654435761).wrapping_add((k as u64).wrapping_mul(40503));
-    (((x >> 7) ^ (x >> 15) ^ (x >> 23)) & 0xFF) as u8
+    let x = (addr as u64).wrapping_mul(2654435761).wrapping_add(((k & 0xFF) as u64).wrapping_mul(40503));
+    let b = (((x >> 7) ^ (x >> 15) ^ (x >> 23)) & 0xFF) as u8;
+    // flag 0x100: internal-memory bytes keep a zero high nibble so 3-byte pointers stay below 1 MiB
+    if (k & 0x100) != 0 && (0x100000..0x100100).contains(&addr) {
+        return b & 0x0F;
+    }
+    b
 }
 
 /// Flat recording bus: sparse byte map over a 24-bit space with a deterministic default fill.
